@@ -192,6 +192,12 @@ static void h_withg(const vcase *c) {
     free(xs);
 }
 
+static void __attribute__((noinline)) adp_scrub_stack(void) {
+    volatile uint8_t big[32 * 1024];
+    for (size_t i = 0; i < sizeof big; i++) big[i] = 0;
+    __asm__ volatile("" ::: "memory");
+}
+
 /* adaptive_rt2 L<first> L<second> / adaptive_with2 e L<first> L<second>: ONE meta
  * object serves two successive encodes; everything printed is about the second */
 static void two_calls(const vcase *c, int64_t e, int ai) {
@@ -202,9 +208,22 @@ static void two_calls(const vcase *c, int64_t e, int ai) {
     varintAdaptiveMeta m;
     memset(&m, 0xEE, sizeof m);
     uint8_t *scratch = malloc(varintAdaptiveMaxSize(n1) + ADP_SLACK);
+    /* back to back, from the same frame, nothing in between: the second call
+     * finds the first call's dead stack frame exactly where its own locals
+     * will live (added by main after seeded change C15-3) */
+    uint8_t *s2a = malloc(varintAdaptiveMaxSize(n2) + ADP_SLACK);
+    uint8_t *s2b = malloc(varintAdaptiveMaxSize(n2) + ADP_SLACK);
     size_t w1 = e < 0 ? varintAdaptiveEncode(scratch, x1, n1, &m)
                       : varintAdaptiveEncodeWith(scratch, x1, n1, (varintAdaptiveEncodingType)e, &m);
+    size_t w2a = e < 0 ? varintAdaptiveEncode(s2a, x2, n2, NULL)
+                       : varintAdaptiveEncodeWith(s2a, x2, n2, (varintAdaptiveEncodingType)e, NULL);
+    adp_scrub_stack();
+    size_t w2b = e < 0 ? varintAdaptiveEncode(s2b, x2, n2, NULL)
+                       : varintAdaptiveEncodeWith(s2b, x2, n2, (varintAdaptiveEncodingType)e, NULL);
+    out_str("b2b", (w2a == w2b && (w2a == 0 || memcmp(s2a, s2b, w2a) == 0)) ? "same" : "diff");
     (void)w1;
+    free(s2a);
+    free(s2b);
     free(scratch);
     if (e < 0) do_analysis(x2, n2);
     do_roundtrip(x2, n2, e, &m);
